@@ -78,8 +78,8 @@ def gen_frame_ops(rng, na, nf, thorough):
     farg = None if fmt == 'GRAY' and rng.random() < 0.5 else fmt
     if kind == 'array':
         wr = rng.random() < 0.6
-        ops = [['newarr', h, w, c, wr, pix, rng.random() < 0.3], ['frame_arr', na, darg, farg]]
-        return ops, 'array-%s%s' % ('rw' if wr else 'ro', '-strided' if ops[0][6] else ''), 1, 1, smooth
+        ops = [['newarr', h, w, c, wr, pix, rng.choice([False, False, False, False, True, 2, 2])], ['frame_arr', na, darg, farg]]
+        return ops, 'array-%s%s' % ('rw' if wr else 'ro', '-permuted' if ops[0][6] == 2 else '-strided' if ops[0][6] else ''), 1, 1, smooth
     base = [['newarr', h, w, c, True, pix, False]]
     jd = data if data or rng.random() < 0.5 else None
     if kind == 'jpg-lazy':
